@@ -116,6 +116,8 @@ pub enum Ty {
     Tup2(Box<Ty>, Box<Ty>),
     Map(Box<Ty>),
     Boxed(Box<Ty>),
+    /// `[T; 2]` (not a path type: its element type is reached only by walking the whole type)
+    Arr2(Box<Ty>),
     Param(usize),
     Assoc(usize),
 }
@@ -146,6 +148,7 @@ impl Ty {
             // of a multi-segment path is still a use of that parameter)
             Ty::Map(t) => format!("std::collections::BTreeMap<String, {}>", t.rust(params, assocs)),
             Ty::Boxed(t) => format!("std::boxed::Box<{}>", t.rust(params, assocs)),
+            Ty::Arr2(t) => format!("[{}; 2]", t.rust(params, assocs)),
             Ty::Param(i) => params[*i].clone(),
             Ty::Assoc(i) => assocs[*i].clone(),
         }
@@ -162,6 +165,7 @@ impl Ty {
             ),
             Ty::Map(t) => Ty::Map(Box::new(t.resolve(params, assocs))),
             Ty::Boxed(t) => Ty::Boxed(Box::new(t.resolve(params, assocs))),
+            Ty::Arr2(t) => Ty::Arr2(Box::new(t.resolve(params, assocs))),
             Ty::Param(i) => params[*i].clone(),
             Ty::Assoc(i) => assocs[*i].clone(),
             t => t.clone(),
@@ -170,7 +174,7 @@ impl Ty {
 
     pub fn params_used(&self, out: &mut Vec<usize>) {
         match self {
-            Ty::Opt(t) | Ty::Vec(t) | Ty::Map(t) | Ty::Boxed(t) => t.params_used(out),
+            Ty::Opt(t) | Ty::Vec(t) | Ty::Map(t) | Ty::Boxed(t) | Ty::Arr2(t) => t.params_used(out),
             Ty::Tup2(a, b) => {
                 a.params_used(out);
                 b.params_used(out)
@@ -186,7 +190,7 @@ impl Ty {
 
     pub fn depth(&self) -> usize {
         match self {
-            Ty::Opt(t) | Ty::Vec(t) | Ty::Map(t) | Ty::Boxed(t) => 1 + t.depth(),
+            Ty::Opt(t) | Ty::Vec(t) | Ty::Map(t) | Ty::Boxed(t) | Ty::Arr2(t) => 1 + t.depth(),
             Ty::Tup2(a, b) => 1 + a.depth().max(b.depth()),
             _ => 0,
         }
